@@ -1525,3 +1525,122 @@ Lemma validation_interp_run_eq : forall thr m L R,
   validation_interp_run thr m L R
   = (interp_ds m (xcheck thr L R), interp_ds m (xcheck thr R (xcheck thr L R))).
 Proof. reflexivity. Qed.
+
+(* ------------------------------------------------------------------ only in-range values are read *)
+Lemma flat_map_ext_in : forall {A B} (f g : A -> list B) l, (forall a, In a l -> f a = g a) -> flat_map f l = flat_map g l.
+Proof.
+  induction l as [|a l IH]; intro H; cbn [flat_map]. reflexivity.
+  rewrite (H a) by (left; reflexivity). rewrite IH. reflexivity. intros b Hb. apply H. right. exact Hb.
+Qed.
+
+Section Ext.
+  Variables nr nc : Z.
+  Variables (disp disp2 : Z -> Z -> option Q) (mask mask2 : Z -> Z -> Z).
+  Hypothesis Hd : forall r c, 0 <= r < nr -> 0 <= c < nc -> disp r c = disp2 r c.
+  Hypothesis Hm : forall r c, 0 <= r < nr -> 0 <= c < nc -> mask r c = mask2 r c.
+
+  Lemma occ_mc_pixel_ext : forall r c, 0 <= r < nr -> 0 <= c < nc ->
+    occ_mc_pixel true nc disp mask r c = occ_mc_pixel true nc disp2 mask2 r c.
+  Proof.
+    intros r c Hr Hc. unfold occ_mc_pixel. rewrite <- (Hm r c Hr Hc), <- (Hd r c Hr Hc).
+    destruct (has (mask r c) MSK_OCCLUSION); [|reflexivity].
+    assert (E1 : map (fun j => okpix (mask r j)) (zrange 0 (c + 1)) = map (fun j => okpix (mask2 r j)) (zrange 0 (c + 1))).
+    { apply map_ext_in. intros j Hj. apply In_zrange in Hj. rewrite Hm by lia. reflexivity. }
+    assert (E2 : map (fun j => okpix (mask r j)) (zrange c (nc - c)) = map (fun j => okpix (mask2 r j)) (zrange c (nc - c))).
+    { apply map_ext_in. intros j Hj. apply In_zrange in Hj. rewrite Hm by lia. reflexivity. }
+    rewrite <- E1, <- E2.
+    set (msk := rev (map (fun j => okpix (mask r j)) (zrange 0 (c + 1)))).
+    set (msk2 := map (fun j => okpix (mask r j)) (zrange c (nc - c))).
+    assert (L1 : Z.of_nat (length msk) = c + 1) by (unfold msk; rewrite rev_length; apply length_map_zrange; lia).
+    assert (L2 : Z.of_nat (length msk2) = nc - c) by (apply length_map_zrange; lia).
+    pose proof (argmax_range msk) as [A1 A2]. pose proof (argmax_range msk2) as [B1 B2].
+    assert (msk <> []) by (intro X; rewrite X in L1; cbn in L1; lia).
+    assert (msk2 <> []) by (intro X; rewrite X in L2; cbn in L2; lia).
+    specialize (A2 H). specialize (B2 H0).
+    destruct (argmax_b msk =? 0).
+    - rewrite Hd by lia. reflexivity.
+    - rewrite Hd by lia. reflexivity.
+  Qed.
+
+  Lemma search_ext : forall P fuel i, search nr nc disp mask P i fuel = search nr nc disp2 mask2 P i fuel.
+  Proof.
+    intros P. induction fuel as [|f IH]; intro i; cbn [search]. reflexivity.
+    destruct (edge nr nc (fst (P i)) (snd (P i))) eqn:Ee. reflexivity.
+    assert (Hin : inside nr nc (P i)) by (apply edge_inside; exact Ee). destruct Hin as [H1 H2].
+    rewrite <- Hm, <- Hd by assumption. rewrite IH. reflexivity.
+  Qed.
+
+  Lemma mc_neighbors_ext : forall r c, mc_neighbors true nr nc disp mask r c = mc_neighbors true nr nc disp2 mask2 r c.
+  Proof.
+    intros r c. unfold mc_neighbors. apply map_ext. intro h. rewrite !mc_path_search. rewrite search_ext. reflexivity.
+  Qed.
+
+  Lemma fvn_ext : forall r c, find_valid_neighbors nr nc disp mask c r = find_valid_neighbors nr nc disp2 mask2 c r.
+  Proof.
+    intros r c. unfold find_valid_neighbors. apply map_ext. intro d.
+    pose proof (fvn_path_search nr nc disp mask (fst d) (snd d) r c (Z.to_nat (max_path_length nr nc)) 0) as E1.
+    pose proof (fvn_path_search nr nc disp2 mask2 (fst d) (snd d) r c (Z.to_nat (max_path_length nr nc)) 0) as E2.
+    rewrite !Z.mul_0_r, !Z.add_0_r in E1, E2. rewrite E1, E2, search_ext. reflexivity.
+  Qed.
+
+  Lemma mis_mc_pixel_ext : forall r c, 0 <= r < nr -> 0 <= c < nc ->
+    mis_mc_pixel true nr nc disp mask r c = mis_mc_pixel true nr nc disp2 mask2 r c.
+  Proof.
+    intros r c Hr Hc. unfold mis_mc_pixel. rewrite <- (Hm r c Hr Hc), <- (Hd r c Hr Hc), <- mc_neighbors_ext. reflexivity.
+  Qed.
+
+  Lemma occ_sgm_pixel_ext : forall r c, 0 <= r < nr -> 0 <= c < nc ->
+    occ_sgm_pixel true nr nc disp mask r c = occ_sgm_pixel true nr nc disp2 mask2 r c.
+  Proof.
+    intros r c Hr Hc. unfold occ_sgm_pixel. rewrite <- (Hm r c Hr Hc), <- (Hd r c Hr Hc), <- fvn_ext. reflexivity.
+  Qed.
+
+  Lemma occ_neighbor_ext : forall r c, 0 <= r < nr -> 0 <= c < nc ->
+    occ_neighbor nr nc mask r c = occ_neighbor nr nc mask2 r c.
+  Proof.
+    intros r c Hr Hc. unfold occ_neighbor. f_equal. f_equal. f_equal.
+    apply flat_map_ext_in. intros r' Hr'. apply In_zrange in Hr'.
+    apply map_ext_in. intros c' Hc'. apply In_zrange in Hc'. rewrite Hm by lia. reflexivity.
+  Qed.
+
+  Lemma mis_sgm_pixel_ext : forall r c, 0 <= r < nr -> 0 <= c < nc ->
+    mis_sgm_pixel true nr nc disp mask r c = mis_sgm_pixel true nr nc disp2 mask2 r c.
+  Proof.
+    intros r c Hr Hc. unfold mis_sgm_pixel.
+    rewrite <- (Hm r c Hr Hc), <- (Hd r c Hr Hc), <- fvn_ext, <- (occ_neighbor_ext r c Hr Hc). reflexivity.
+  Qed.
+End Ext.
+
+(* the outputs at the pixels of the map depend only on the values at the pixels of the map *)
+Theorem interp_ext : forall m nr nc off disp mask disp2 mask2,
+  (forall r c, 0 <= r < nr -> 0 <= c < nc -> disp r c = disp2 r c) ->
+  (forall r c, 0 <= r < nr -> 0 <= c < nc -> mask r c = mask2 r c) ->
+  forall r c, 0 <= r < nr -> 0 <= c < nc ->
+    fst (interp m nr nc off disp mask) r c = fst (interp m nr nc off disp2 mask2) r c /\
+    snd (interp m nr nc off disp mask) r c = snd (interp m nr nc off disp2 mask2) r c.
+Proof.
+  intros m nr nc off disp mask disp2 mask2 Hd Hm r c Hr Hc. unfold interp, interp_gen. destruct m.
+  - set (k1 := occ_mc_pixel true nc disp mask). set (k1' := occ_mc_pixel true nc disp2 mask2).
+    assert (Ed1 : forall r c, 0 <= r < nr -> 0 <= c < nc -> kernel_disp nr nc k1 r c = kernel_disp nr nc k1' r c).
+    { intros r0 c0 Hr0 Hc0. rewrite !kernel_disp_in by assumption. unfold k1, k1'.
+      rewrite (occ_mc_pixel_ext nr nc disp disp2 mask mask2 Hd Hm) by assumption. reflexivity. }
+    assert (Em1 : forall r c, 0 <= r < nr -> 0 <= c < nc -> kernel_val nr nc k1 r c = kernel_val nr nc k1' r c).
+    { intros r0 c0 Hr0 Hc0. rewrite !kernel_val_in by assumption. unfold k1, k1'.
+      rewrite (occ_mc_pixel_ext nr nc disp disp2 mask mask2 Hd Hm) by assumption. reflexivity. }
+    cbn [fst snd]. split.
+    + rewrite !kernel_disp_in by assumption. rewrite (mis_mc_pixel_ext nr nc _ _ _ _ Ed1 Em1) by assumption. reflexivity.
+    + destruct (0 <? off) eqn:Eo.
+      * rewrite !mask_border_spec by lia. rewrite !kernel_val_in by assumption.
+        rewrite (mis_mc_pixel_ext nr nc _ _ _ _ Ed1 Em1) by assumption. reflexivity.
+      * rewrite !kernel_val_in by assumption. rewrite (mis_mc_pixel_ext nr nc _ _ _ _ Ed1 Em1) by assumption. reflexivity.
+  - set (k1 := mis_sgm_pixel true nr nc disp mask). set (k1' := mis_sgm_pixel true nr nc disp2 mask2).
+    assert (Ed1 : forall r c, 0 <= r < nr -> 0 <= c < nc -> kernel_disp nr nc k1 r c = kernel_disp nr nc k1' r c).
+    { intros r0 c0 Hr0 Hc0. rewrite !kernel_disp_in by assumption. unfold k1, k1'.
+      rewrite (mis_sgm_pixel_ext nr nc disp disp2 mask mask2 Hd Hm) by assumption. reflexivity. }
+    assert (Em1 : forall r c, 0 <= r < nr -> 0 <= c < nc -> kernel_val nr nc k1 r c = kernel_val nr nc k1' r c).
+    { intros r0 c0 Hr0 Hc0. rewrite !kernel_val_in by assumption. unfold k1, k1'.
+      rewrite (mis_sgm_pixel_ext nr nc disp disp2 mask mask2 Hd Hm) by assumption. reflexivity. }
+    cbn [fst snd]. split.
+    + rewrite !kernel_disp_in by assumption. rewrite (occ_sgm_pixel_ext nr nc _ _ _ _ Ed1 Em1) by assumption. reflexivity.
+    + rewrite !kernel_val_in by assumption. rewrite (occ_sgm_pixel_ext nr nc _ _ _ _ Ed1 Em1) by assumption. reflexivity.
+Qed.
